@@ -40,7 +40,7 @@ REQUIRED_CLASSES = {
 }
 
 
-FORMS = ("indices", "indices", "indices", "blocks", "blocks", "eigvecs")
+FORMS = ("indices", "indices", "indices", "blocks", "blocks", "eigvecs", "symmatrix")
 
 
 def strategy(tier):
